@@ -84,9 +84,13 @@ C04_WriteAdmission == Is("wadmit") => Obs.waitsnd < Obs.sndwnd
 C09_Layout == Genuine => /\ Obs.cryptok                                  \* integrity field verifies under the reference cipher
                          /\ Obs.cryptok => Obs.tiles /\ Obs.sizeok /\ Obs.convok
 C09_ParityIsReedSolomon == Genuine /\ Obs.cryptok /\ Obs.fectype = 242 => Obs.parityok
+(* fecpos: the absolute id modulo (d+p); fecinrange: the absolute id is below the wrap value (ids are 32-bit: both are computed *)
+(* by the decoder in the harness, TLC's integers do not reach 2^32); fecseq: the id relative to the first group seen on the flow, *)
+(* counted modulo the wrap value                                                                                                *)
 C09_FecTypeMatchesPosition ==
   Genuine /\ Obs.cryptok /\ Obs.fecon /\ Obs.fectype \in {241, 242} =>
-     LET n == Obs.fd + Obs.fp IN IF Obs.fecseq % n < Obs.fd THEN Obs.fectype = 241 ELSE Obs.fectype = 242
+     IF Obs.fecpos < Obs.fd THEN Obs.fectype = 241 ELSE Obs.fectype = 242
+C09_FecIdInRange == Genuine /\ Obs.cryptok /\ Obs.fecon /\ Obs.fectype \in {241, 242} => Obs.fecinrange
 (* ids strictly increase on a flow (no repeats within a wrap period) and advance by one, or over a skipped parity block *)
 (* (runs that close sessions in mid-transfer are exempt: the listener then creates a fresh session, with a fresh   *)
 (* encoder, for the peer that is still retransmitting)                                                            *)
